@@ -21,7 +21,7 @@ vars == <<cfg, cnt, fails, bad, act>>
 View == <<cfg, cnt, fails, bad>>
 
 \* cfg.tl: which trusted-hosts list is set ("def" | "oth")
-Init == /\ cfg \in [evalex : BOOLEAN, pin_on : BOOLEAN, pin : {"A"}, tl : {"def"}, plog : IF ConfigOn THEN BOOLEAN ELSE {TRUE}]
+Init == /\ cfg \in [evalex : BOOLEAN, pin_on : BOOLEAN, pin : {"A"}, tl : {"def"}, plog : {TRUE}]     \* pin_logging = False is exercised on the code side (trace judge) only
         /\ cnt = 0 /\ fails = 0 /\ bad = "ok"
         /\ act = [k |-> "init"]
 
